@@ -168,7 +168,24 @@ func C15(r *Run) *core.Report {
 			rep.Check(guarded && tickerVal != nil, "C15.J1", fn(ctor)+" janitor guard", r.P.InstrPos(g), "goroutine started only when the interval its ticker uses ("+tickField+") is strictly positive",
 				"the janitor goroutine is not started under a guard implying a strictly positive "+tickField+" (the value its ticker is built from): with an interval <= 0 it would run (or panic in the ticker), or with a positive one not run")
 			// ticker case calls DeleteExpired; stop case returns
-			c15select(r, rep, i, ctor, cl, tickerVal, inner)
+			// a goroutine started as a function call: its parameters stand for the arguments of the go statement
+			argOf := func(v ssa.Value) ssa.Value {
+				prm, isP := core.StripConv(v).(*ssa.Parameter)
+				if !isP || mc != nil {
+					return v
+				}
+				for pi, q := range cl.Params {
+					if q == prm && pi < len(g.Common().Args) {
+						a := core.StripConv(g.Common().Args[pi])
+						if mi, isMI := a.(*ssa.MakeInterface); isMI {
+							a = core.StripConv(mi.X)
+						}
+						return a
+					}
+				}
+				return v
+			}
+			c15select(r, rep, i, ctor, cl, tickerVal, inner, argOf)
 			// J2 captures / arguments
 			var inputs []ssa.Value
 			var inNames []string
@@ -442,7 +459,7 @@ func positiveTest(cond ssa.Value) (posOnTrue bool, field string, cell ssa.Value,
 
 // c15select checks the janitor loop: the ticker case calls DeleteExpired on the captured inner object and
 // the stop case leaves the goroutine.
-func c15select(r *Run, rep *core.Report, idx int, ctor, cl *ssa.Function, ticker ssa.Value, inner *types.Named) {
+func c15select(r *Run, rep *core.Report, idx int, ctor, cl *ssa.Function, ticker ssa.Value, inner *types.Named, argOf func(ssa.Value) ssa.Value) {
 	var sel *ssa.Select
 	core.Instrs(cl, func(in ssa.Instruction) {
 		if s, ok := in.(*ssa.Select); ok {
@@ -455,7 +472,7 @@ func c15select(r *Run, rep *core.Report, idx int, ctor, cl *ssa.Function, ticker
 	}
 	tickIdx, stopIdx := -1, -1
 	for i, st := range sel.States {
-		ld, ok := st.Chan.(*ssa.UnOp)
+		ld, ok := argOf(st.Chan).(*ssa.UnOp)
 		if !ok {
 			continue
 		}
@@ -510,6 +527,17 @@ func c15select(r *Run, rep *core.Report, idx int, ctor, cl *ssa.Function, ticker
 						de := r.M.CacheM[idx]["DeleteExpired"]
 						if cal := core.Callee(c); cal != nil && (cal == de || (cal == pureDelegate(de) && len(c.Common().Args) == 1)) {
 							calls = true
+						}
+						// through a small interface: the method of that name on the cache object handed to the goroutine
+						if cc := c.Common(); cc.IsInvoke() && de != nil && cc.Method.Name() == de.Name() {
+							if n, ok := elemOf(argOf(cc.Value).Type()).(*types.Named); ok {
+								if n.Origin() != nil {
+									n = n.Origin()
+								}
+								if n == inner {
+									calls = true
+								}
+							}
 						}
 					}
 				}
